@@ -225,6 +225,9 @@ vorbis_info_residue *res0_unpack(vorbis_info *vi,oggpack_buffer *opb){
   for(j=0;j<acc;j++){
     if(info->booklist[j]>=ci->books)goto errout;
     if(ci->book_param[info->booklist[j]]->maptype==0)goto errout;
+    /* stage books are used in VQ context: partitions are decoded
+       dim scalars at a time */
+    if(ci->book_param[info->booklist[j]]->dim<1)goto errout;
   }
 
   /* verify the phrasebook is not specifying an impossible or
